@@ -31,6 +31,16 @@ def plan(tier, seed, kf_ids):
                 jobs.append(Job(name, code, "for every value of %s: to_num::<%s> (and checked_/overflowing_) is the IEEE-754 "
                                 "RNE result incl. subnormals and overflow to infinity" % (al, ft),
                                 timeout=1200, inst="%s->%s" % (al, ft), bounds="all 2^%d values" % w))
+        if w == 128:
+            # subnormal f32 results exist only for 127/128 fractional bits: always instantiated
+            for f in (127, 128):
+                if f in fr:
+                    continue
+                name = "c05_to_%s_f32" % c.tag(s, w, f)
+                code = "#[kani::proof]\npub fn %s() { to_float::<%s, f32>(); }" % (name, c.ty(s, w, f))
+                jobs.append(Job(name, code, "for every value of %s: to_num::<f32> (and checked_/overflowing_) is the IEEE-754 "
+                                "RNE result incl. SUBNORMAL results (|x| < 2^-126) and overflow to infinity" % c.alias(s, w, f),
+                                timeout=1200, inst="%s->f32" % c.alias(s, w, f), bounds="all 2^128 values"))
         if fr:
             f0 = fr[-1]
             for ft in ("f32", "f64"):
